@@ -31,6 +31,14 @@ correspondence : (a) real hierarchies of the four constructors on small SPD matr
                  degree 0-3, iterations 0-3, zero and non-zero x, admissible and arbitrary dyadic coefficients) and the installed
                  Richardson / Chebyshev closures of real hierarchies (coefficients actually used) vs the Lean model (ops ext_poly /
                  ext_cpoly), tolerance 1e-9; whenever |1 - t p(t)| <= 1 on the spectrum the energies of the real output are compared.
+                 (d) extension E35, part CM: complex Hermitian hierarchies (SA / root-node on exactly Hermitian unitary-diagonal
+                 rotations, n <= 20, Gauss-Seidel / SOR / Jacobi) -- one real V/W/F cycle vs `C02.cycle` over Gaussian rationals
+                 (op c02x_ccycle: R = P^H, Galerkin products and coarse solve exact; tolerance 1e-9), the driver decides the data
+                 hypotheses of `complex_model_cycle_nonexpansive` exactly and reports J(x') <= J(x), J(x) = Re(x^H A x) - 2 Re(b^H x);
+                 part BM: BSR hierarchies (elasticity, block-coupled, block size 2-3 per level) and CSR hierarchies with an explicit
+                 block size, smoothed by block Gauss-Seidel / block Jacobi / pointwise Gauss-Seidel / Jacobi -- one real cycle vs
+                 `C02X.cycleO` on BSR levels (op c02x_bcycle: exact inverse diagonal blocks), data hypotheses of
+                 `block_model_cycle_nonexpansive` decided exactly.
 search         : the dense error-propagation matrix E of one real cycle (n <= 150; over the reals for complex problems, so
                  that a map that is not complex-linear is covered too), ||A^(1/2) E A^(-1/2)||_2 <= 1 + 1e-8, probed in three ways
                  (b = 0 / random b with initial guesses x* - e_j / ZERO initial guess with b = A e_j), for the matrix families /
@@ -66,14 +74,21 @@ META = {
                     'decide it given |1 - t p(t)| <= 1 on the spectrum, which is checked per level for the coefficients actually '
                     'installed (assumption); the executable cycle model does not run polynomial smoothers, such cycles are judged by '
                     'the dense operator norm',
-                    'complex Hermitian problems: the abstract theorems (cycle, coarse correction, subspace corrections) apply to '
-                    'the real form; the kernel-level theorems and the executable cycle model are real only',
+                    'complex Hermitian problems: the executable cycle model runs over Gaussian rationals (part CM, op c02x_ccycle, '
+                    '`complex_model_cycle_nonexpansive`) for Gauss-Seidel / SOR / Jacobi smoothing with a REAL relaxation parameter on '
+                    'CSR levels; complex hierarchies with other smoothers (polynomial, block, Schwarz, NE/NR) or with BSR levels are '
+                    'covered by the abstract complex theorems (`complex_cycle_nonexpansive`) and the dense operator norm over the reals',
                     'block Jacobi / block Gauss-Seidel / Schwarz kernels: the theorems are about the operator '
                     'form x + I S I^T (b - A x) resp. x + omega Dinv (b - A x) (`block_jacobi_is_operator`: the kernel formula '
                     '(1-omega) x + omega Dinv (b - N x) is that form); that the kernels compute this form is C09 '
                     '(dense formulas), here the (generalised-)inverse property of the stored inverses is checked; Richardson is '
                     'the degree-0 case of the polynomial model (part P)',
-                    'BSR level matrices with blocks larger than 1 (elasticity): search only (the cycle model takes CSR levels)',
+                    'BSR level matrices with blocks larger than 1 (elasticity, block-coupled problems): real hierarchies run through the '
+                    'BSR cycle model (part BM, op c02x_bcycle, `block_model_cycle_nonexpansive`: block Gauss-Seidel / block Jacobi with '
+                    'the exact inverse diagonal blocks, pointwise Gauss-Seidel / Jacobi); the model keeps every level matrix dense and '
+                    'stores all blocks of its BSR copy (same operator: `bsr_copy_operator`), so the sparsity pattern of the real BSR '
+                    'matrix (stored zero blocks, block order) enters only through the comparison of the results; Schwarz and polynomial '
+                    'smoothers on BSR levels: search only',
                     'hierarchies with a singular coarsest Galerkin matrix (pseudo-inverse coarse solve): covered by the abstract '
                     'theorem (energy-exact coarsest solve) and the search; the executable model replies `singular`'],
     'partial': [],
@@ -85,6 +100,13 @@ META = {
                     'the exact Boolean checkers of the driver (R = P^T, Galerkin, unique diagonal, pivots positive, 2D - omega A positive '
                     'definite) stand for the semantic hypotheses of `model_cycle_nonexpansive` (IsAdj, linear-map equality, HasDiag, PSD, '
                     'damping bound); that link is by inspection, not proved',
+                    'E35: likewise the exact Boolean checkers of c02x_ccycle / c02x_bcycle (A0 Hermitian and its real form positive definite, '
+                    'R = P^H resp. P^T, Galerkin, unique diagonal, real 0 <= omega <= 2, 2D - omega A resp. 2 D_B - omega A positive definite, '
+                    'Dinv_i A_ii = A_ii Dinv_i = I for every diagonal block) stand for the semantic hypotheses CWFModel / BWFModel (IsCAdj, '
+                    'linear-map equality, HasDiag, LeftInv / RightInv, damping bounds) by inspection; pyamg forms Dinv by pinv of the diagonal '
+                    'blocks, the model by exact elimination (equal for nonsingular blocks; the results are compared to 1e-9)',
+                    'E35: on a BSR level `relaxation.gauss_seidel` calls bsr_gauss_seidel, which takes no omega (SOR on BSR levels is plain '
+                    'Gauss-Seidel): part BM generates gauss_seidel / jacobi / block smoothers only and encodes omega = 1 for that kernel',
                     'solvability of the coarse problems (a hypothesis of the cycle theorem) holds because the model only runs on '
                     'nonsingular coarsest matrices; on intermediate levels it follows from positive definiteness, not proved in Lean'],
 }
@@ -1069,6 +1091,294 @@ def part_model(ctx, N):
 
 
 # ------------------------------------------------------------------------------------------------
+# extension E35: the executable cycle model on complex Hermitian hierarchies (part CM) and on BSR levels with block
+# smoothers (part BM); theorems `complex_model_cycle_nonexpansive`, `block_model_cycle_nonexpansive`
+# ------------------------------------------------------------------------------------------------
+
+def _ccsr_tokens(Mx):
+    from common import enc_crats
+    Mx = sp.csr_array(Mx)
+    Mx.sort_indices()
+    return f'{enc_ints(Mx.indptr)} {enc_ints(Mx.indices)} {enc_crats(Mx.data)}'
+
+
+def _csm_token(fn):
+    from common import enc_crat
+    name, kw = smoother_params(fn)
+    if 'Dinv' in kw:
+        raise KeyError('block')
+    if name in ('gauss_seidel', 'sor', 'block_gauss_seidel'):
+        return f"gs:{enc_crat(kw.get('omega', 1.0))}:{kw.get('sweep', 'forward')}:{kw.get('iterations', 1)}"
+    if name in ('jacobi', 'block_jacobi'):
+        return f"jac:{enc_crat(kw.get('omega', 1.0))}:{kw.get('iterations', 1)}"
+    raise KeyError(name)
+
+
+def _bsm_token(fn, A):
+    """smoother token of the BSR model; `A` = the level matrix the smoother was set up on"""
+    name, kw = smoother_params(fn)
+    bsr = A.format == 'bsr' and tuple(A.blocksize) != (1, 1)
+    if 'Dinv' in kw:
+        bs = int(kw['blocksize'])
+        if tuple(np.shape(kw['Dinv'])) != (A.shape[0] // bs, bs, bs):
+            raise KeyError('Dinv shape')
+        if name == 'block_gauss_seidel':
+            return f"bgs:{bs}:{kw.get('sweep', 'forward')}:{kw.get('iterations', 1)}"
+        if name == 'block_jacobi':
+            return f"bjac:{bs}:{enc_rat(np.real(kw.get('omega', 1.0)))}:{kw.get('iterations', 1)}"
+        raise KeyError(name)
+    if name in ('gauss_seidel', 'sor', 'block_gauss_seidel'):
+        # relaxation.gauss_seidel on a BSR matrix calls bsr_gauss_seidel, which has no omega: plain Gauss-Seidel
+        om = 1.0 if bsr else kw.get('omega', 1.0)
+        return f"gs:{enc_rat(om)}:{kw.get('sweep', 'forward')}:{kw.get('iterations', 1)}"
+    if name in ('jacobi', 'block_jacobi'):
+        return f"jac:{enc_rat(np.real(kw.get('omega', 1.0)))}:{kw.get('iterations', 1)}"
+    raise KeyError(name)
+
+
+def _cdec(tok):
+    a, b = tok.split('|')
+    return complex(int(a) / SCALE, int(b) / SCALE)
+
+
+def _model_compare(ctx, op, it, o, cplx, hyp_text):
+    """shared judgement of one reply of c02x_ccycle / c02x_bcycle; -> ok"""
+    spec, ml = it['spec'], it['ml']
+    case = dict(spec_case(spec), cycle=it['cycle'], cycles_per_level=it['cpl'], x0=it['x0'], b=it['b'], mode=op)
+    parts = o.split('#')
+    if o in ('singular', 'singular-block'):
+        ctx.feat(f'{op}:{o}')
+        return True
+    if len(parts) != 6:
+        ctx.corr(op, case, o[:200], 'n/a', 'driver rejected the request')
+        return False
+    ok = True
+    if cplx:
+        xm = np.array([_cdec(v) for v in dec_list(parts[0])])
+        Acm = np.array([[_cdec(v) for v in dec_list(r)] for r in parts[3].split(';')])
+    else:
+        xm = np.array([int(v) / SCALE for v in dec_list(parts[0])])
+        Acm = np.array([[int(v) / SCALE for v in dec_list(r)] for r in parts[3].split(';')])
+    err = np.abs(xm - it['x1']).max() / max(1.0, np.abs(xm).max())
+    ctx.rel_err(err)
+    Ac = ml.levels[-1].A.toarray()
+    if parts[1] != 'true':
+        ctx.corr(f'{op}: A0 not exactly ' + ('Hermitian' if cplx else 'symmetric'), case, parts[1], 'n/a')
+        ok = False
+    elif parts[4] != 'true':
+        ctx.corr(f'{op}: elimination of (the real form of) A0 meets a non-positive pivot in exact arithmetic', case, parts[4], 'n/a')
+        ok = False
+    elif parts[2] != 'true':
+        ctx.corr(f'{op}: the exact model cycle increased the energy (theorem instance broken)', case, parts[2], 'n/a')
+        ok = False
+    elif parts[5] != 'true':
+        ctx.corr(f'{op}: the data hypotheses of {hyp_text} fail on the model hierarchy', case, parts[5], 'n/a')
+        ok = False
+    else:
+        ctx.feat(f'{op}:theorem_hypotheses_checked')
+    if not err <= 1e-9:
+        ctx.corr(f'{op}: one {it["cycle"]}-cycle of the real hierarchy differs from the exact model (rel. {err:.3g})', case,
+                 [str(v) for v in xm.tolist()], [str(v) for v in it['x1'].tolist()])
+        ok = False
+    if Acm.shape != Ac.shape or not np.abs(Acm - Ac).max() <= 1e-9 * max(np.abs(Ac).max(), 1e-300):
+        ctx.corr(f'{op}: coarsest matrix of the real hierarchy differs from the exact Galerkin product of the model', case,
+                 [str(v) for v in Acm.ravel().tolist()][:64], [str(v) for v in Ac.ravel().tolist()][:64])
+        ok = False
+    if ok:
+        ctx.feat(f'{op}:agrees')
+    return ok
+
+
+def part_cmodel(ctx, N):
+    """complex Hermitian hierarchies (SA / root-node on unitary-diagonal rotations) vs `C02.cycle` over Gaussian rationals"""
+    from common import enc_crats
+    rng = ctx.np_rng
+    items = []
+    t = 0
+    while len(items) < N and t < 8 * N and ctx.time_left() > 10:
+        t += 1
+        fam = ['poisson1d', 'poisson2d', 'graph_shift', 'graph_dirichlet', 'gram', 'aniso', 'graph_identity'][t % 7]
+        M = make_matrix(rng, fam, 20)
+        if M['A'].shape[0] > 20 or M['A'].shape[0] < 3:
+            continue
+        M = rotate(rng, M)
+        # D A D^H in floating point is Hermitian only up to rounding; (A + A^H)/2 is exactly Hermitian (the theorem's hypothesis)
+        Ah = sp.csr_array((M['A'] + M['A'].conj().T) * 0.5)
+        Ah = _i32(Ah)
+        Ah.sort_indices()
+        M = dict(M, A=Ah)
+        A = M['A']
+        n = A.shape[0]
+        En = Energy(A.toarray())
+        if not En.hpd:
+            continue
+        ctor = ['sa', 'rootnode'][t % 2]
+        kw = rand_ctor(rng, M, ctor, True)
+        if isinstance(kw.get('aggregate'), tuple) and kw['aggregate'][0] == 'lloyd':
+            kw['aggregate'] = 'standard'
+        kw['max_coarse'] = int(rng.choice([1, 2, 3, 5]))
+        kw['presmoother'] = rand_smoother(rng, False, None, model_only=True)
+        kw['postsmoother'] = kw['presmoother'] if rng.random() < 0.4 else rand_smoother(rng, False, None, model_only=True)
+        spec = {'M': M, 'ctor': ctor, 'kw': kw, 'npseed': int(rng.integers(0, 2**31 - 1))}
+        try:
+            ml = build(spec)
+        except Exception as ex:    # noqa: BLE001
+            if not ctor_refusal(ex) and not probe(spec).get('nonfinite'):
+                ctx.corr('constructor raised', spec_case(spec), 'a hierarchy', f'{type(ex).__name__}: {ex}')
+            continue
+        if len(ml.levels) < 2 or any(l.A.format == 'bsr' and tuple(l.A.blocksize) != (1, 1) for l in ml.levels):
+            continue
+        if any((not np.isfinite(l.P.data).all()) or (l.P.nnz and np.abs(l.P.data).max() > 1e8) for l in ml.levels[:-1]):
+            continue
+        cyc = 'VWF'[len(items) % 3]
+        cpl = int(rng.choice([1, 2])) if cyc == 'F' else 1
+        x0 = (rng.integers(-8, 9, n) + 1j * rng.integers(-8, 9, n)) / 8.0
+        b = (rng.integers(-8, 9, n) + 1j * rng.integers(-8, 9, n)) / 4.0
+        try:
+            x1 = one_cycle(ml, b, x0, cyc, cpl)
+        except Exception:    # noqa: BLE001  (singular coarse matrix with lu/cholesky: the search part handles these)
+            continue
+        toks = ['c02x_ccycle', cyc, str(cpl), str(n), _ccsr_tokens(A), enc_crats(x0), enc_crats(b), str(len(ml.levels) - 1)]
+        try:
+            for lv in ml.levels[:-1]:
+                P = sp.csr_array(lv.P).astype(complex)
+                toks += [str(P.shape[0]), str(P.shape[1]), _ccsr_tokens(P), _csm_token(lv.presmoother), _csm_token(lv.postsmoother)]
+        except KeyError:
+            continue
+        items.append({'line': ' '.join(toks), 'spec': spec, 'ml': ml, 'x1': x1, 'x0': x0, 'b': b, 'cycle': cyc, 'cpl': cpl, 'En': En})
+    outs = _lean(ctx, [it['line'] for it in items], chunks=4 if len(items) >= 64 else 1)
+    for it, o in zip(items, outs):
+        ctx.case(key=_key(it['line']), nontrivial=True,
+                 sample={'request': it['line'][:160], 'model': o[:80], 'impl': [str(v) for v in it['x1'][:3]]} if ctx.evaluations % 11 == 0 else None)
+        ctx.feat('cmodel:' + it['spec']['ctor'])
+        ctx.feat('cmodel_cycle:' + it['cycle'])
+        ctx.feat(f'cmodel_levels:{len(it["ml"].levels)}')
+        for sm in (it['spec']['kw']['presmoother'], it['spec']['kw']['postsmoother']):
+            ctx.feat('cmodel_smoother:' + _tup(sm)[0])
+        ok = _model_compare(ctx, 'c02x_ccycle', it, o, True,
+                            'complex_model_cycle_nonexpansive (shapes, R = P^H, Galerkin, one diagonal per row, real 0 <= omega <= 2 '
+                            'for Gauss-Seidel/SOR, real omega and 2D - omega A positive definite for Jacobi)')
+        if not ok:
+            judge(ctx, it['spec'], it['ml'], it['En'], [(it['cycle'], it['cpl'])], ctx.np_rng)
+    # the exact complex comparison op on float-clear cases (expected: true) and on the reversed pair (expected: false)
+    lines, exp = [], []
+    for it in items[:4]:
+        En = it['En']
+        xs = np.linalg.solve(En.Ad, it['b'])
+        e0, e1 = xs - it['x0'], xs - it['x1']
+        if En.en(e1) < En.en(e0) * (1 - 1e-6):
+            hdr = f'{En.n} {_ccsr_tokens(sp.csr_array(En.Ad))}'
+            lines += [f'c02x_cenergy_le {hdr} {enc_crats(e0)} {enc_crats(e1)}', f'c02x_cenergy_le {hdr} {enc_crats(e1)} {enc_crats(e0)}']
+            exp += ['true', 'false']
+    for ln, o, ex in zip(lines, _lean(ctx, lines), exp):
+        ctx.feat('cenergy_le_op')
+        if o != ex:
+            ctx.corr('c02x_cenergy_le', {'line': ln[:400]}, o, ex)
+
+
+BM_SMOOTHERS = ['gauss_seidel', 'jacobi', 'block_gauss_seidel', 'block_gauss_seidel', 'block_jacobi', 'block_jacobi']
+
+
+def _bm_smoother(rng, bs_opt):
+    sweep = str(rng.choice(['forward', 'backward', 'symmetric']))
+    its = int(rng.choice([1, 1, 2, 3]))
+    name = str(rng.choice(BM_SMOOTHERS))
+    om = float(rng.choice([4.0 / 3.0, 1.0, 0.5, float(rng.uniform(0.2, 4.0 / 3.0))]))
+    if name == 'gauss_seidel':
+        return ('gauss_seidel', {'sweep': sweep, 'iterations': its})
+    if name == 'jacobi':
+        return ('jacobi', {'omega': om, 'iterations': its})
+    kw = {'sweep': sweep, 'iterations': its} if name == 'block_gauss_seidel' else {'omega': om, 'iterations': its}
+    if bs_opt:
+        kw['blocksize'] = int(bs_opt)
+    return (name, kw)
+
+
+def part_bmodel(ctx, N):
+    """BSR hierarchies (elasticity, block-coupled problems; SA / root-node) and CSR hierarchies with an explicit block
+    size, smoothed by block Gauss-Seidel / block Jacobi / the pointwise kernels, vs `C02X.cycleO` on BSR levels"""
+    rng = ctx.np_rng
+    items = []
+    t = 0
+    while len(items) < N and t < 8 * N and ctx.time_left() > 10:
+        t += 1
+        fam = ['elasticity2d', 'blockcpl', 'elasticity2d_nu', 'blockcpl', 'poisson2d', 'graph_shift'][t % 6]
+        M = make_matrix(rng, fam, 24)
+        A = M['A']
+        n = A.shape[0]
+        if n > 36 or n < 4:
+            continue
+        En = Energy(A.toarray())
+        if not En.hpd:
+            continue
+        bsr = A.format == 'bsr'
+        ctor = ['sa', 'rootnode'][t % 2] if bsr else CTORS[t % 4]
+        kw = rand_ctor(rng, M, ctor, False)
+        if bsr and kw.get('strength') is None:
+            kw['strength'] = 'symmetric'
+        if isinstance(kw.get('aggregate'), tuple) and kw['aggregate'][0] == 'lloyd':
+            kw['aggregate'] = 'standard'
+        kw['max_coarse'] = int(rng.choice([1, 2, 3, 6]))
+        bs_opt = None
+        if not bsr:
+            # explicit block size on CSR levels: two-level hierarchies (the block size has to divide the level size)
+            kw['max_levels'] = 2
+            divs = [d for d in (2, 3, 4) if n % d == 0]
+            if not divs:
+                continue
+            bs_opt = int(rng.choice(divs))
+        kw['presmoother'] = _bm_smoother(rng, bs_opt)
+        kw['postsmoother'] = kw['presmoother'] if rng.random() < 0.4 else _bm_smoother(rng, bs_opt)
+        spec = {'M': M, 'ctor': ctor, 'kw': kw, 'npseed': int(rng.integers(0, 2**31 - 1))}
+        try:
+            ml = build(spec)
+        except Exception as ex:    # noqa: BLE001
+            if not ctor_refusal(ex) and not probe(spec).get('nonfinite'):
+                ctx.corr('constructor raised', spec_case(spec), 'a hierarchy', f'{type(ex).__name__}: {ex}')
+            continue
+        if len(ml.levels) < 2:
+            continue
+        if any((not np.isfinite(l.P.data).all()) or (l.P.nnz and np.abs(l.P.data).max() > 1e8) for l in ml.levels[:-1]):
+            continue
+        cyc = 'VWF'[len(items) % 3]
+        cpl = int(rng.choice([1, 2])) if cyc == 'F' else 1
+        x0 = rng.integers(-8, 9, n) / 8.0
+        b = rng.integers(-8, 9, n) / 4.0
+        try:
+            x1 = one_cycle(ml, b, x0, cyc, cpl)
+        except Exception:    # noqa: BLE001
+            continue
+        toks = ['c02x_bcycle', cyc, str(cpl), str(n), _csr_tokens(A), enc_rats(x0), enc_rats(b), str(len(ml.levels) - 1)]
+        try:
+            names = []
+            for lv in ml.levels[:-1]:
+                P = sp.csr_array(lv.P)
+                tp, tq = _bsm_token(lv.presmoother, lv.A), _bsm_token(lv.postsmoother, lv.A)
+                names += [tp.split(':')[0], tq.split(':')[0]]
+                toks += [str(P.shape[0]), str(P.shape[1]), _csr_tokens(P), tp, tq]
+        except KeyError:
+            continue
+        items.append({'line': ' '.join(toks), 'spec': spec, 'ml': ml, 'x1': x1, 'x0': x0, 'b': b, 'cycle': cyc, 'cpl': cpl, 'En': En,
+                      'names': names})
+    outs = _lean(ctx, [it['line'] for it in items], chunks=4 if len(items) >= 64 else 1)
+    for it, o in zip(items, outs):
+        ml = it['ml']
+        ctx.case(key=_key(it['line']), nontrivial=True,
+                 sample={'request': it['line'][:160], 'model': o[:80], 'impl': it['x1'][:4].tolist()} if ctx.evaluations % 11 == 0 else None)
+        ctx.feat('bmodel:' + it['spec']['ctor'])
+        ctx.feat('bmodel_cycle:' + it['cycle'])
+        ctx.feat(f'bmodel_levels:{len(ml.levels)}')
+        ctx.feat('bmodel_blocksizes:' + ','.join(str(l.A.blocksize[0]) if l.A.format == 'bsr' else '1' for l in ml.levels))
+        for nm in set(it['names']):
+            ctx.feat('bmodel_smoother:' + nm)
+        ok = _model_compare(ctx, 'c02x_bcycle', it, o, False,
+                            'block_model_cycle_nonexpansive (shapes, R = P^T, Galerkin, exact inverse diagonal blocks, 2 D_B - omega A '
+                            'positive definite for block Jacobi, the pointwise conditions of model_cycle_nonexpansive)')
+        if not ok:
+            judge(ctx, it['spec'], ml, it['En'], [(it['cycle'], it['cpl'])], ctx.np_rng)
+
+
+# ------------------------------------------------------------------------------------------------
 # part E: every smoother family at the edge of its admissible damping, on matrices with a large rho(D^-1 A)
 # ------------------------------------------------------------------------------------------------
 
@@ -1479,7 +1789,9 @@ def run(ctx):
     part_history(ctx, ctx.scale(18, 500))
     part_edge(ctx, ctx.scale(63, 900))
     part_search(ctx, ctx.scale(50, 1300), 150 if not ctx.quick else 110)
-    part_poly(ctx, ctx.scale(40, 600))     # last: the random stream of the older parts is unchanged
+    part_poly(ctx, ctx.scale(40, 600))     # the random stream of the older parts is unchanged
+    part_cmodel(ctx, ctx.scale(15, 150))   # extension E35
+    part_bmodel(ctx, ctx.scale(18, 180))
 
 
 def search(ctx):
